@@ -378,6 +378,8 @@ func validateAndMatch(env *Env, id string, src isoSource, size int64, tree *WNod
 		env.OracleFail(id, fmt.Sprintf("[C08-valid] (%s) %s", route, pr))
 	}
 	if len(p.problems) > 0 {
+		// an image that an independent reader cannot decode does not contain the source tree either
+		env.OracleFail(id, fmt.Sprintf("[C07-tree] (%s) the image cannot be decoded by an independent ISO 9660 reader: %s", route, p.problems[0]))
 		return
 	}
 	for h, top := range []*isoNode{p.primary, p.joliet} {
